@@ -493,8 +493,9 @@ func runScenario(t *testing.T, sc *Scenario, r *vlib.Rand, maxSteps int) *Outcom
 				}()
 			}
 			<-done
-			// let virtual time pass: a call started after the return would show up now
-			time.Sleep(time.Duration(sc.LatMax*60+10) * time.Millisecond)
+			// let virtual time pass: a call started after the return would show up now, and every
+			// goroutine that the call left behind (a missing barrier) gets the time to finish
+			time.Sleep(24 * time.Hour)
 			synctest.Wait()
 			e.finalMonitors()
 			return
@@ -725,7 +726,15 @@ func conform(m *vlib.Model, lines []string) (int, string, error) {
 	return -1, "", nil
 }
 
+// outOfRange is set once a scenario has shown f being called with an index outside [0,n): the Map
+// variants would then index their input slice out of range inside a library goroutine and take the
+// whole test binary down, so they are skipped from then on (the violation is already recorded).
+var outOfRange bool
+
 func check(t *testing.T, sc *Scenario, r *vlib.Rand, m *vlib.Model, res *vlib.Result) *Outcome {
+	if outOfRange && (sc.Mode == "map" || sc.Mode == "mc") {
+		return &Outcome{Stats: map[string]int{}}
+	}
 	var fork *vlib.Rand
 	if r != nil {
 		fork = r.Fork()
@@ -739,6 +748,9 @@ func check(t *testing.T, sc *Scenario, r *vlib.Rand, m *vlib.Model, res *vlib.Re
 		res.Fail(vlib.Failure{Source: "monitor", Kind: "panic", Params: map[string]interface{}{"mode": sc.Mode}, What: "panic: " + o.Panicked, Case: sc})
 	}
 	for _, v := range o.Viols {
+		if v.Kind == "exactly-once" && strings.Contains(v.What, "outside") {
+			outOfRange = true
+		}
 		small := sc
 		if sc.Kind == "script" && len(sc.Steps) > 1 {
 			steps := vlib.Shrink(sc.Steps, func(c []Step) bool {
@@ -817,6 +829,17 @@ func TestVerif(t *testing.T) {
 		return
 	}
 
+	// probe: Do/DoContext on small configurations before anything else (see outOfRange)
+	for _, mode := range []string{"do", "dc"} {
+		for p := -1; p <= 3; p++ {
+			for n := 0; n <= 4; n++ {
+				sc := &Scenario{Kind: "timed", Mode: mode, P: p, N: n, Gmp: 2, LatMax: 1, LatMode: 1}
+				res.Count("probe")
+				o := check(t, sc, nil, m, res)
+				res.Case(sc.key(), nontrivial(sc, o), nil)
+			}
+		}
+	}
 	for _, f := range vlib.CorpusFiles(env.Corpus, ".json") {
 		b, err := os.ReadFile(f)
 		if err != nil {
